@@ -665,6 +665,19 @@ def run_case(case, out, tmp, model_ok, ops, pend, oracle=True):
             out.fail("the value grid of the workbook differs with and without styles", brief,
                      first_grid_diff(grid0, grid), "identical cell values", key="styles_change_values")
 
+    # ---- path versus binary stream: the saved cell values are the same
+    if oracle and isinstance(case.get("index"), int) and case["index"] % 4 == 0:
+        other = "bytes" if kind == "path" else "path"
+        try:
+            data2, _ = write_wb(real, styles, sep, other, tmp, tag + "o")
+            if not grids_equal(value_grid(data2), grid):
+                out.fail("the workbook written to a path differs from the one written to a binary stream", brief,
+                         first_grid_diff(value_grid(data2), grid), "identical cell values", key="path_vs_stream")
+        except Exception as e:  # noqa: BLE001
+            out.fail("write_excel raised for the other kind of target", brief, other + ": " + type(e).__name__, None,
+                     key="write_raises_other_target")
+        out.count("path-vs-stream comparisons")
+
     # ---- read back
     if kind == "path":
         source = os.path.join(tmp, tag + ".xlsx")
@@ -800,7 +813,7 @@ def run(tier, seed, model_ok, translator, search=False):
                 "non-trivial = at least one table with a column; distinct by sheet map and settings")
     rng = make_rng(seed, "C09")
     thorough = tier == "thorough"
-    n_cases = (1400 if thorough else 75) if not search else 500
+    n_cases = (4000 if thorough else 150) if not search else 500
     tmp = tempfile.mkdtemp(prefix="c09-")
     ops, pend = [], []
     try:
@@ -842,7 +855,7 @@ def run(tier, seed, model_ok, translator, search=False):
             os.makedirs(tmp, exist_ok=True)
 
         # well-formedness predicate: python vs Lean, on generated (positive) and hand-made negative tables
-        wf_specs = [(True, t) for _, _, imp in [p for p in pend if p[0] == "none"] for t in imp]
+        wf_specs = []
         for _, case, _ in [p for p in pend if p[0] == "write_read"][:40]:
             for s in case["sheets"]:
                 for t in s["tables"]:
